@@ -28,6 +28,8 @@ CONSTANTS
   NestDepths,       \* depths 2^k of Nest
   SpliceOther,      \* TRUE: splice with every seed of the format, FALSE: with itself only
   SpliceWindow,     \* splice resumes at most this many fields away from where it cut
+  OctetSel,         \* value classes of octet-valued parts / header members used in this configuration
+  JweCbcAlgs,       \* key algorithms that are also combined with A128CBC-HS256 (all of them in the thorough tier)
   StructAllSeeds,   \* FALSE: the structural JOSE operators skip the non-representative full JSON seeds
   RandLens, NRand,  \* purely random inputs: lengths and how many per length
   NodeIdx,          \* DER node indices for the TLV operators (in addition to the position classes)
@@ -212,15 +214,15 @@ FlvHdr(flags) == <<Raw(<<70, 76, 86>>), U8(1), U8(flags), U32(9), U32(0)>>
 Tag(ty, ts, body) ==
   <<U8(ty), U24(ByteLen(body)), U24(ts % 16777216), U8(ts \div 16777216), U24(0)>> \o body \o <<U32(11 + ByteLen(body))>>
 FlvSeeds == <<
+  [name |-> "audio", arg |-> 0, ok |-> "flv.demux",
+   ld |-> FlvHdr(4) \o Tag(8, 0, <<AudioHdr(2, 3, 1, 0), Fill(30, 48)>>) \o Tag(8, 26, <<AudioHdr(2, 3, 1, 0), Fill(300, 49)>>)],
+  [name |-> "hdr", arg |-> 0, ok |-> "flv.demux", ld |-> FlvHdr(1)],
   [name |-> "av", arg |-> 0, ok |-> "flv.demux",
    ld |-> FlvHdr(5) \o Tag(18, 0, StrV(S_onMetaData) \o Ecma(1, Key(S_a) \o Num(46)))
           \o Tag(9, 0, <<VideoHdr(1, 7), U8(0), U24(0)>> \o AvcRec1)
           \o Tag(8, 0, <<AudioHdr(10, 3, 1, 1), U8(0)>> \o Asc(2, 4, 2))
           \o Tag(9, 40, <<VideoHdr(2, 7), U8(1), U24(80)>> \o Sample4)
           \o Tag(8, 16777239, <<AudioHdr(10, 3, 1, 1), U8(1), Fill(20, 47)>>)],
-  [name |-> "hdr", arg |-> 0, ok |-> "flv.demux", ld |-> FlvHdr(1)],
-  [name |-> "audio", arg |-> 0, ok |-> "flv.demux",
-   ld |-> FlvHdr(4) \o Tag(8, 0, <<AudioHdr(2, 3, 1, 0), Fill(30, 48)>>) \o Tag(8, 26, <<AudioHdr(2, 3, 1, 0), Fill(300, 49)>>)],
   [name |-> "empty", arg |-> 0, ok |-> "flv.demux", ld |-> FlvHdr(5) \o Tag(9, 0, <<>>) \o Tag(8, 0, <<>>)]
 >>
 
@@ -263,7 +265,8 @@ JweKeyAlgs == {"RSA1_5", "RSA-OAEP", "RSA-OAEP-256", "A128KW", "A192KW", "A256KW
 JweEncs == {"A128GCM", "A192GCM", "A256GCM", "A128CBC-HS256", "A192CBC-HS384", "A256CBC-HS512"}
 JwsSeedSet == {[alg |-> a, form |-> fo] : a \in JwsAlgs, fo \in {"compact", "full"}}
               \cup {[alg |-> "HS256", form |-> "fullhdr"], [alg |-> "ES256", form |-> "fullhdr"], [alg |-> "RS256", form |-> "multi"]}
-JweSeedSet == {[alg |-> a, enc |-> e, form |-> fo] : a \in JweKeyAlgs, e \in {"A128GCM", "A128CBC-HS256"}, fo \in {"compact", "full"}}
+JweSeedSet == {[alg |-> a, enc |-> "A128GCM", form |-> fo] : a \in JweKeyAlgs, fo \in {"compact", "full"}}
+              \cup {[alg |-> a, enc |-> "A128CBC-HS256", form |-> fo] : a \in JweKeyAlgs \cap JweCbcAlgs, fo \in {"compact", "full"}}
               \cup {[alg |-> a, enc |-> e, form |-> "compact"] : a \in {"dir", "A256KW"}, e \in JweEncs}
               \cup {[alg |-> a, enc |-> "A128GCM", form |-> fo] : a \in {"dir", "A128KW", "ECDH-ES", "RSA-OAEP"}, fo \in {"fullaad", "zip"}}
               \cup {[alg |-> a, enc |-> "A128GCM", form |-> "multi"] : a \in {"A128KW", "RSA-OAEP", "ECDH-ES+A128KW", "A256GCMKW"}}
@@ -298,7 +301,7 @@ HeaderVals(m) ==
     [] m = "jwk" -> {"null", "num", "rsa", "oct", "p256", "priv"}
     [] m = "epk.crv" -> {"P-256", "P-384", "P-521", "", "num"}
     [] m = "epk.kty" -> {"EC", "RSA", "oct", "", "num"}
-    [] OTHER -> OctetVals
+    [] OTHER -> OctetVals \cap OctetSel
 
 PosClasses == {"0", "1", "quarter", "half", "end-1", "end"}
 ByteVals == {"00", "ff", "flip01", "flip80", "dec", "inc", "quote", "squote", "bslash", "slash2", "slashstar",
@@ -432,13 +435,13 @@ TlvOps(p, n) ==
   \cup {Y("tlvnest", p, "d" , n + 1000 * d) : d \in NestDepths}
 \* seeds the byte-level operators run on
 Representative(f, sd) ==
-  \/ ByteOpsAllSeeds
-  \/ f \notin {"jws", "jwe"}
-  \/ f = "jws" /\ sd.alg \in {"RS256", "ES256", "HS256"}
-  \/ f = "jwe" /\ sd.enc = "A128GCM" /\ sd.alg \in {"dir", "RSA-OAEP", "ECDH-ES", "A128GCMKW", "A128KW"}
+  IF ByteOpsAllSeeds \/ f \notin {"jws", "jwe"} THEN TRUE
+  ELSE IF f = "jws" THEN sd.alg \in {"RS256", "ES256", "HS256"}
+  ELSE sd.enc = "A128GCM" /\ sd.alg \in {"dir", "RSA-OAEP", "ECDH-ES", "A128GCMKW", "A128KW"}
 ByteLevel(o) == o.o \in {"trunc", "set", "ins", "del", "dup", "splice", "nest"}
 Structural(o) == o.o \in {"fdrop", "fdup", "fset", "hset", "hdrop", "hmove"}
-StructSeed(f, sd) == StructAllSeeds \/ f \notin {"jws", "jwe"} \/ sd.form # "full" \/ Representative(f, sd)
+StructSeed(f, sd) == IF StructAllSeeds \/ f \notin {"jws", "jwe"} THEN TRUE
+                     ELSE IF sd.form # "full" THEN TRUE ELSE Representative(f, sd)
 SymOpsOf(f) ==
   (IF "trunc" \in OpsNow THEN {Y("trunc", p, "", 0) : p \in PosClasses} ELSE {})
   \cup (IF "set" \in OpsNow THEN {Y("set", p, v, 0) : p \in PosClasses, v \in ByteVals} ELSE {})
@@ -450,7 +453,7 @@ SymOpsOf(f) ==
         THEN {Y("nest", "", v, d) : v \in {"array", "object", "block", "string"}, d \in NestDepths} ELSE {})
   \cup (IF "field" \in OpsNow /\ f \in {"jws", "jwe", "jwk"}
         THEN {Y("fdrop", m, "", 0) : m \in FieldsOf(f)} \cup {Y("fdup", m, "", 0) : m \in FieldsOf(f)}
-             \cup {Y("fset", m, v, 0) : m \in FieldsOf(f), v \in OctetVals}
+             \cup {Y("fset", m, v, 0) : m \in FieldsOf(f), v \in OctetVals \cap OctetSel}
         ELSE {})
   \cup (IF "header" \in OpsNow /\ f \in {"jws", "jwe"}
         THEN UNION {{Y("hset", m, v, 0) : v \in HeaderVals(m)} : m \in HeaderMembers}
@@ -463,8 +466,8 @@ SymOpsOf(f) ==
 SymMutate ==
   /\ CanMutate /\ fmt \in SymFormats
   /\ \E o \in SymOpsOf(fmt) :
-       /\ ByteLevel(o) => Representative(fmt, seed)
-       /\ Structural(o) => StructSeed(fmt, seed)
+       /\ (IF ByteLevel(o) THEN Representative(fmt, seed) ELSE TRUE)
+       /\ (IF Structural(o) THEN StructSeed(fmt, seed) ELSE TRUE)
        /\ SymStep(o)
 
 \* purely random input of a given length (the replayer draws it from its seed); n = length * 100 + index
